@@ -101,7 +101,7 @@ def objarr(x, shape=None):
 
 
 def _to_obj_nd(x):
-    if isinstance(x, (SR, SB)) or _np.isscalar(x) or x is None:
+    if isinstance(x, (SR, SB, F)) or _np.isscalar(x) or x is None:
         a = _np.empty((), dtype=object)
         a[()] = x
         return a
@@ -123,7 +123,7 @@ def _to_obj_nd(x):
 
 
 def has_sym(x, depth=0):
-    if isinstance(x, (SR, SB)):
+    if isinstance(x, (SR, SB, F)):
         return True
     if isinstance(x, _np.ndarray):
         return x.dtype == object
